@@ -304,14 +304,17 @@ def main():
 
     with Lock():
         # 1. generated parts
-        for name, problem in regenerate(log):
-            broken.append(("translator:" + name, problem))
+        gen_problems = regenerate(log)
         # 2. Coq
         bad = forbidden_scan()
         for b in bad:
             broken.append(("forbidden-construct", b))
         failed = coq_build(log)
         deps = deps_of("Props/%s.v" % prop)
+        for name, problem in gen_problems:
+            # a translator that refuses breaks the tie only for properties built on its output
+            if ("Gen/%s.v" % name[3:].capitalize()) in deps:
+                broken.append(("translator:" + name, problem))
         prop_failed = {f: e for f, e in failed.items() if f in deps or f == "<build>"}
         if prop_failed:
             for f, e in prop_failed.items():
